@@ -292,6 +292,13 @@ def _plain_value(reg, rng, mode: str):
         b = bytearray(core.rand_bytes(rng, nbytes))
         b[0] = b[0] or 0x5A
         b[-1] = b[-1] or 0xA5
+        if reg.config_as_hexstring and rng.random() < 0.3:
+            # hexadecimal text that could be mistaken for another notation: decimal digits only, or the look of a binary literal
+            if rng.random() < 0.6:
+                b = bytearray(rng.choice(range(10)) * 16 + rng.choice(range(10)) for _ in range(nbytes))
+                b[0] = b[0] or 0x12
+            else:
+                b = bytearray([0x0B] + [rng.choice((0x00, 0x01, 0x10, 0x11)) for _ in range(nbytes - 1)])
         val = int.from_bytes(b, "big")
     digits = nbytes * 2
     if reg.config_as_hexstring:
